@@ -1,6 +1,7 @@
 import ModVerif.Drv.MainLoop
 import ModVerif.Drv.Tlog
 import ModVerif.Drv.Tile
+import ModVerif.Drv.GenTlog
 open ModVerif.Drv
 
-def main : IO Unit := runMain [("tlog", Tlog.handle), ("tile", Tile.handle)]
+def main : IO Unit := runMain [("tlog", Tlog.handle), ("tile", Tile.handle), ("gtlog", GenTlog.handle)]
